@@ -577,10 +577,11 @@ class Node(object):
             msg = f'Child type "{new_child.name}" and "{old_child.name}" mismatch'
             raise ValueError(msg)
 
-        new_child.parent = self
-        self._children[self._children.index(old_child)] = new_child
+        index = self._children.index(old_child)
         if delete_old and new_child is not old_child:
             Node.delete_node_instance(id=old_child.id)
+        new_child.parent = self
+        self._children[index] = new_child
 
     def shift(self, child, direction: Shift, sib: bool = True):
         """
